@@ -59,6 +59,7 @@ static bool mutate_line(std::string &line, const std::string &m) {
 	return true;
 }
 
+static std::string mpz2s62(mpz_srcptr v) { std::ostringstream o; o << v; return o.str(); }
 struct Inst {
 	size_t n; bool cyclic;
 	TMCG_Stack<VTMF_Card> s, s2;
@@ -68,7 +69,8 @@ struct Inst {
 // returns verdict 1 accept / 0 reject / 2 exception; nlines: number of lines the prover sent (for position classes)
 static int run_case(const json &c, long &nlines, std::string &note) {
 	std::string variant = c["variant"];          // groth_ni, groth_i, hoogh_ni, hoogh_i
-	bool hoogh = variant.compare(0, 5, "hoogh") == 0, inter = variant[variant.size() - 1] == 'i' && variant[variant.size() - 2] == '_';
+	bool hv = variant.size() > 3 && variant.compare(variant.size() - 3, 3, "_hv") == 0;      // honest-verifier interactive form, class level
+	bool hoogh = variant.compare(0, 5, "hoogh") == 0, inter = hv || (variant[variant.size() - 1] == 'i' && variant[variant.size() - 2] == '_');
 	size_t n = c["n"];
 	std::string stmt = c["stmt"];                // true | subst | dup | retype | noncyclic
 	std::string mut = c.value("mut", std::string("none"));
@@ -88,12 +90,31 @@ static int run_case(const json &c, long &nlines, std::string &note) {
 		TMCG_Stack<VTMF_Card> t; size_t k = rnd(n); for (size_t i = 0; i < n; i++) t.push(i == k ? m : I.s2[i]); I.s2 = t; }
 	if (stmt == "dup") { TMCG_Stack<VTMF_Card> t; size_t k = rnd(n), k2 = (k + 1) % n; for (size_t i = 0; i < n; i++) t.push(i == k ? I.s2[k2] : I.s2[i]); I.s2 = t; }
 	GrothVSSHE *vsshe = NULL, *vsshe_v = NULL; HooghSchoenmakersSkoricVillegasVRHE *vrhe = NULL, *vrhe_v = NULL;
+	unsigned long le = c.value("le", (unsigned long)TMCG_GROTH_L_E);      // challenge length of the Groth argument
+	// "hprover": a second card scheme over the same group with another key; prover and argument instance use it consistently
+	BarnettSmartVTMF_dlog *vt_p = vtmf;
+	if (pub == "hprover") {
+		std::stringstream gs; vtmf->PublishGroup(gs);
+		vt_p = new BarnettSmartVTMF_dlog(gs, 1024, 256);
+		vt_p->KeyGenerationProtocol_GenerateKey(); vt_p->KeyGenerationProtocol_Finalize();
+		tm.TMCG_MixStack(I.s, I.s2, I.ss, vt_p);          // the output stack is a shuffle of the input under the other key
+	}
 	if (!hoogh) {
-		vsshe = new GrothVSSHE(n, vtmf->p, vtmf->q, vtmf->k, vtmf->g, vtmf->h);
-		std::stringstream pg; vsshe->PublishGroup(pg); vsshe_v = new GrothVSSHE(n, pg, TMCG_GROTH_L_E, 1024, 256);
+		if (pub == "hprover") {
+			// the published description of a genuine instance with only the ElGamal key replaced (the commitment key stays)
+			GrothVSSHE g0(n, vtmf->p, vtmf->q, vtmf->k, vtmf->g, vtmf->h, le, 1024, 256);
+			std::stringstream p0; g0.PublishGroup(p0);
+			std::vector<std::string> ls; { std::string ln; while (std::getline(p0, ln)) ls.push_back(ln); }
+			if (ls.size() > 3) ls[3] = mpz2s62(vt_p->h);
+			std::stringstream p1, p2; for (size_t k = 0; k < ls.size(); k++) { p1 << ls[k] << std::endl; p2 << ls[k] << std::endl; }
+			vsshe = new GrothVSSHE(n, p1, le, 1024, 256); vsshe_v = new GrothVSSHE(n, p2, le, 1024, 256);
+		} else {
+		vsshe = new GrothVSSHE(n, vt_p->p, vt_p->q, vt_p->k, vt_p->g, vt_p->h, le, 1024, 256);
+		std::stringstream pg; vsshe->PublishGroup(pg); vsshe_v = new GrothVSSHE(n, pg, le, 1024, 256);
+		}
 		if (!vsshe_v->CheckGroup()) note = "vsshe group check failed";
 	} else {
-		vrhe = new HooghSchoenmakersSkoricVillegasVRHE(vtmf->p, vtmf->q, vtmf->g, vtmf->h);
+		vrhe = new HooghSchoenmakersSkoricVillegasVRHE(vt_p->p, vt_p->q, vt_p->g, vt_p->h);
 		std::stringstream pg; vrhe->PublishGroup(pg); vrhe_v = new HooghSchoenmakersSkoricVillegasVRHE(pg, 1024, 256);
 		if (!vrhe_v->CheckGroup()) note = "vrhe group check failed";
 	}
@@ -114,8 +135,14 @@ static int run_case(const json &c, long &nlines, std::string &note) {
 	try {
 		if (!inter) {
 			std::stringstream proof;
-			if (!hoogh) tm.TMCG_ProveStackEquality_Groth_noninteractive(I.s, I.s2, I.ss, vtmf, vsshe, proof);
-			else tm.TMCG_ProveStackEquality_Hoogh_noninteractive(I.s, I.s2, I.ss, vtmf, vrhe, proof);
+			if (!hoogh && pub == "hprover") {
+				std::vector<mpz_ptr> R; std::vector<std::pair<mpz_ptr, mpz_ptr> > e, E; std::vector<size_t> pi;
+				tm.TMCG_InitializeStackEquality_Groth(pi, R, e, E, I.s, I.s2, I.ss);
+				vsshe->Prove_noninteractive(pi, R, e, E, proof);
+				tm.TMCG_ReleaseStackEquality_Groth(pi, R, e, E);
+			}
+			else if (!hoogh) tm.TMCG_ProveStackEquality_Groth_noninteractive(I.s, I.s2, I.ss, vt_p, vsshe, proof);
+			else tm.TMCG_ProveStackEquality_Hoogh_noninteractive(I.s, I.s2, I.ss, vt_p, vrhe, proof);
 			std::vector<std::string> lines; { std::string ln; while (std::getline(proof, ln)) lines.push_back(ln); }
 			nlines = (long)lines.size();
 			if (mut != "none" && !lines.empty()) {
@@ -135,10 +162,27 @@ static int run_case(const json &c, long &nlines, std::string &note) {
 			PipeBuf pb(&r2p, &p2r), vb(&r2v, &v2r);
 			std::iostream pio(&pb), vio(&vb);
 			long sent = 0; long target = c.value("line", -1L);
+			if (c.contains("line") && target < 0) {          // counted from the end: an honest session tells how many values there are
+				json dry(c); dry.erase("line"); dry.erase("mut"); long nl = 0; std::string nt; run_case(dry, nl, nt);
+				target = nl + target; if (target < 0) note = "n/a";
+			}
 			bool prover_exc = false;
 			std::thread prover([&]() { try {
-				if (!hoogh) tm.TMCG_ProveStackEquality_Groth(I.s, I.s2, I.ss, vtmf, vsshe, pio, pio);
-				else tm.TMCG_ProveStackEquality_Hoogh(I.s, I.s2, I.ss, vtmf, vrhe, pio, pio);
+				if (!hoogh && (hv || pub == "hprover")) {
+					std::vector<mpz_ptr> R; std::vector<std::pair<mpz_ptr, mpz_ptr> > e, E; std::vector<size_t> pi;
+					tm.TMCG_InitializeStackEquality_Groth(pi, R, e, E, I.s, I.s2, I.ss);
+					if (hv) vsshe->Prove_interactive(pi, R, e, E, pio, pio);
+					else { JareckiLysyanskayaEDCF cf(2, 0, vt_p->p, vt_p->q, vt_p->g, vt_p->h); vsshe->Prove_interactive_publiccoin(pi, R, e, E, &cf, pio, pio); }
+					tm.TMCG_ReleaseStackEquality_Groth(pi, R, e, E);
+				} else if (hoogh && hv) {
+					std::vector<mpz_ptr> R; std::vector<std::pair<mpz_ptr, mpz_ptr> > e, E;
+					tm.TMCG_InitializeStackEquality_Hoogh(R, e, E, I.s, I.s2, I.ss);
+					size_t r = (I.ss.size() - I.ss[0].first) % I.ss.size();
+					vrhe->Prove_interactive(r, R, e, E, pio, pio);
+					tm.TMCG_ReleaseStackEquality_Hoogh(R, e, E);
+				}
+				else if (!hoogh) tm.TMCG_ProveStackEquality_Groth(I.s, I.s2, I.ss, vt_p, vsshe, pio, pio);
+				else tm.TMCG_ProveStackEquality_Hoogh(I.s, I.s2, I.ss, vt_p, vrhe, pio, pio);
 			} catch (...) { prover_exc = true; } p2r.close(); });
 			std::thread relay_pv([&]() {      // prover -> verifier, line by line, mutating line `target`
 				std::string ln; int ch;
@@ -153,7 +197,15 @@ static int run_case(const json &c, long &nlines, std::string &note) {
 			bool r = false; bool vexc = false;
 			SchindelhauerTMCG tmv(16, 2, 4);
 			try {
-				if (!hoogh) r = tmv.TMCG_VerifyStackEquality_Groth(vs, vs2, vt_v, vsshe_h ? vsshe_h : vsshe_v, vio, vio);
+				if (hv) {
+					// the honest-verifier forms have no card-level entry point: ciphertext vectors of the two stacks
+					std::vector<std::pair<mpz_ptr, mpz_ptr> > e, E;
+					tmv.TMCG_InitializeStackEquality_Groth(e, E, vs, vs2);
+					if (!hoogh) r = (vsshe_h ? vsshe_h : vsshe_v)->Verify_interactive(e, E, vio, vio);
+					else r = (vrhe_h ? vrhe_h : vrhe_v)->Verify_interactive(e, E, vio, vio);
+					tmv.TMCG_ReleaseStackEquality_Groth(e, E);
+				}
+				else if (!hoogh) r = tmv.TMCG_VerifyStackEquality_Groth(vs, vs2, vt_v, vsshe_h ? vsshe_h : vsshe_v, vio, vio);
 				else r = tmv.TMCG_VerifyStackEquality_Hoogh(vs, vs2, vt_v, vrhe_h ? vrhe_h : vrhe_v, vio, vio);
 			} catch (...) { vexc = true; }
 			v2r.close(); r2v.close(); r2p.close(); p2r.close();
@@ -166,6 +218,7 @@ static int run_case(const json &c, long &nlines, std::string &note) {
 		}
 	} catch (std::exception &ex) { verdict = 2; note = ex.what(); }
 	delete vsshe; delete vsshe_v; delete vrhe; delete vrhe_v; delete vsshe_h; delete vrhe_h;
+	if (vt_p != vtmf) delete vt_p;
 	return verdict;
 }
 
